@@ -20,6 +20,8 @@ var (
 	PT1  = model.PT("p", model.T1)
 	PT2  = model.PT("p", model.T2)
 	QImm = model.PI("q")
+	QT2  = model.PT("q", model.T2)
+	PT3  = model.PT("p", model.T3)
 
 	LInt  = model.L(literal.Int64, int64(1))
 	LText = model.L(literal.Text, "x")
@@ -53,6 +55,7 @@ func PTerms() []Term {
 		{Kind: Bound, ID: "p", Lo: tp(model.T1)},
 		{Kind: Bound, ID: "p", Hi: tp(model.T1)},
 		{Kind: Bound, ID: "p", Lo: tp(model.T1), Hi: tp(model.T2)},
+		{Kind: Bound, ID: "p", Lo: tp(model.T2)},
 		{Kind: Bind},
 	}
 }
@@ -217,8 +220,9 @@ func SelectAll(cs []Clause) []Proj {
 	return ps
 }
 
-// Universe6 is the data universe for one-clause shapes.
-func Universe6() []*triple.Triple {
+// Universe8 is the data universe for one-clause shapes: every predicate id in
+// both kinds, three anchors, every object kind, a self loop.
+func Universe8() []*triple.Triple {
 	return []*triple.Triple{
 		model.T(NA, PImm, model.ON(NB)),
 		model.T(NA, PT1, model.ON(NB)),
@@ -226,7 +230,25 @@ func Universe6() []*triple.Triple {
 		model.T(NC, PImm, model.ON(NC)),
 		model.T(NA, QImm, model.OP(PT1)),
 		model.T(NC, PT1, model.OP(PImm)),
+		model.T(NA, QT2, model.ON(NB)),
+		model.T(NA, PT3, model.OP(PT2)),
 	}
+}
+
+// Masks returns the subsets explored: all of them (thorough) or every subset
+// of at most 3 triples plus the full universe (quick).
+func Masks(n int, all bool) []int {
+	var out []int
+	for m := 0; m < 1<<uint(n); m++ {
+		bits := 0
+		for x := m; x != 0; x &= x - 1 {
+			bits++
+		}
+		if all || bits <= 3 || m == 1<<uint(n)-1 {
+			out = append(out, m)
+		}
+	}
+	return out
 }
 
 // Subset picks the triples of u whose bit is set in mask.
